@@ -1080,6 +1080,16 @@ def analyse_wait_helper(ctx: Ctx, h: FuncInfo) -> Optional[WaitHelper]:
                 ret_index["runnable"] = i
             else:
                 ret_index.setdefault("done", i)
+    # the pending set is the one the wait primitive returned: any later re-binding of it (e.g. "those not done()") can drop a
+    # future that finished after the wait returned and was therefore not pruned
+    for n in iter_own_nodes(h.node):
+        if isinstance(n, (ast.Assign, ast.AugAssign)) and n is not bind and getattr(n, "lineno", 0) > getattr(bind, "lineno", 0):
+            tgs = n.targets if isinstance(n, ast.Assign) else [n.target]
+            flat = []
+            for t in tgs:
+                flat += list(t.elts) if isinstance(t, (ast.Tuple, ast.List)) else [t]
+            if any(isinstance(t, ast.Name) and t.id == p_running for t in flat):
+                notes.append("PENDING-REBOUND: " + norm_src(n)[:100])
     return WaitHelper(h, kind, p_running, p_mode, const_mode, p_graph, p_runnable, ret_index, early, wait_call,
                       awaited, done_loop, checks, before, removes, unions, notes)
 
